@@ -29,6 +29,7 @@ class Unit:
         self.no_contract_for = tuple(no_contract_for)  # callees to inline instead of using their contract
         self.max_paths = max_paths
         self.case = tuple(case)  # one arm of an exhaustive case split (extra pre-state assumptions)
+        self.drop_clauses = frozenset()  # (callee qualname, clause id): clauses of callee contracts that may not be assumed at call sites
         self.relational = None  # (contract, receiver, tag_a, tag_b, confirm): compare this unit's function under a second receiver
 
 
@@ -46,6 +47,7 @@ def _run_one(i):
         def setup(I, u=u):
             if u.no_contract_for:
                 I.contract_filter = lambda q, u=u: q not in u.no_contract_for
+            I.drop_clauses = u.drop_clauses
             if u.setup:
                 u.setup(I)
         if u.relational:
@@ -334,6 +336,34 @@ def check_property(mod, world, tier="quick", seed=0):
 
     # stale helpers: re-prove with the callee bodies inlined (DESIGN.md §6)
     stale_note = []
+    if failing_helper and not failing_prop and hasattr(mod, "build"):
+        # first the cheap and modular repair: a callee's contract without the clauses its body no longer satisfies is still a
+        # contract its body satisfies (every clause is discharged on its own).  If the failed clauses are all postcondition clauses
+        # (not a frame, a well-formedness, a raises-only or a call-site obligation), the callers are re-proved assuming only the
+        # clauses that were discharged; nothing is inlined, so loop invariants stay where they were proved.
+        ids_of = {}
+        for u in units:
+            ct = u.contract
+            ids = {cl.id for cl in getattr(ct, "ensures", [])} | {cl.id for lst in getattr(ct, "raises", {}).values() for cl in lst}
+            ids_of.setdefault(u.qualname, set()).update(ids)
+        drop = {(h["unit"].split("[")[0], h["name"]) for h in failing_helper}
+        if all(name in ids_of.get(q, ()) for q, name in drop):
+            try:
+                units_w = mod.build(world)
+                for u in units_w:
+                    u.drop_clauses = frozenset(drop)
+                res_w = run_units(world, units_w)
+                ob_w = [o for _, obs, _, _ in res_w for o in obs]
+                for o in ob_w:
+                    retag(o)
+                ok_w = (not any(err for _, _, _, err in res_w) and len(ob_w) >= len(real)
+                        and all(o["status"] == "unsat" for o in ob_w if o["tag"] == "property"))
+            except Exception:  # noqa: BLE001
+                ok_w = False
+            if ok_w:
+                for h in failing_helper:
+                    stale_note.append(f"STALE-HELPER contract clause {h['name']} in {h['unit']} (property obligations re-proved against the callee contracts without that clause)")
+                failing_helper = []
     if failing_helper and not failing_prop and hasattr(mod, "rebuild_inlined"):
         stale_units = sorted({o["unit"] for o in failing_helper})
         units2 = mod.rebuild_inlined(world, failing_helper)
